@@ -149,7 +149,7 @@ def run_expand(chk, model):
         names = [n for n in env.resolved if n not in ("topdir", "loc2")]
         if exotic and rng.random() < 0.3:
             names.append("nowhere")
-        atoms = ml.gen_side(rng, [], names, lead_var=0.6)
+        atoms = ml.fix_empty_lead(ml.gen_side(rng, [], names, lead_var=0.6), env)
         side = (ml.atoms_text(atoms), list(env.pairs), rng.choice([None, None, None, "/r"]))
         if not ml.ascii_names_only(side[0], *[v for _, v in side[1]]):
             continue
